@@ -345,8 +345,12 @@ func run[V any](r *engine.Rec, c *cfg[V]) {
 			if !exp.mustPanic && !exp.mayPanic {
 				return viol(op.K+" panics on a valid call", o.Value)
 			}
+			// the set still contains exactly the values added and not removed (observable contents, not the private representation)
+			if got := set.AsArray(); !same(got, m) {
+				return viol(op.K+" panics but changes the set", fmt.Sprintf("before %v after %v", m, got))
+			}
 			if before != after {
-				return viol(op.K+" panics but changes the set", "")
+				return seqx.Step{Key: after, Size: len(m), Expand: true} // private state differs: a new state of the search
 			}
 			return seqx.Step{}
 		}
@@ -366,12 +370,6 @@ func run[V any](r *engine.Rec, c *cfg[V]) {
 			}
 			if !ok {
 				return viol(op.K+" wrong result", fmt.Sprintf("set %v: got %v want %v", m, res, exp.res))
-			}
-		}
-		switch op.K {
-		case "ContainsValue", "GetIndex", "ContainsAny", "ContainsAll", "GetValue", "GetValues", "Observe":
-			if before != after {
-				return viol(op.K+" (a query) changes the private state", "")
 			}
 		}
 		// invariants through the API, using the set's own collator
